@@ -109,6 +109,10 @@ def declare(reg):
         'wf': ['self.len == len(self.textstr)', '0 <= self.pos', 'self.pos <= self.len'],
         'isa': ['Cursor'],
     }
+    # the legacy Buffer twins on the character view
+    reg.classes['ABInput'] = {'mro': ['tatsu/input/buffer.py:Buffer'], 'fields': {'_namechar_set': 'charset'}}
+    reg.classes['ABCursor'] = {'mro': ['tatsu/input/buffer.py:BufferCursor'], 'fields': {'buffer': 'ABInput'}, 'isa': ['Cursor']}
+    reg.classes['ABuffer'] = {'mro': ['tatsu/input/buffer.py:Buffer'], 'fields': {'_namechar_set': 'charset'}}
     reg.imports['notnone'] = 'tatsu/util/typetools.py:notnone'
     reg.classes['LInput'] = {'mro': ['tatsu/input/textlines.py:TextLines'],
                              'fields': {'line_cache': 'arrlist[PosLine]', 'textlen': 'int'}}
@@ -207,6 +211,16 @@ def _ghosts_lineinfo(args):
     return {'starts': starts, 'lineof': lineof, 'nl': len(inp.lines), 'terminated': inp.textstr[-1:] in ('\r', '\n')}
 
 
+def _build_abcursor(f):
+    from tatsu.input.buffer import Buffer
+    return Buffer('', namechars=''.join(sorted(f['buffer'][2].get('_namechar_set') or ''))).newcursor()
+
+
+def _build_abuffer(f):
+    from tatsu.input.buffer import Buffer
+    return Buffer('', namechars=''.join(sorted(f.get('_namechar_set') or '')))
+
+
 def _build_bufcursor2(f):
     from tatsu.input.buffer import Buffer
     c = Buffer(f['buffer'][2]['text']).newcursor()
@@ -229,7 +243,7 @@ def _ghosts_from_lines(lines, text):
             'terminated': text[-1:] in ('\r', '\n')}
 
 
-BUILDERS = {'ACursor': _build_acursor, 'LCursor2': _build_lcursor2, 'BufCursor2': _build_bufcursor2, 'BufOwn2': _build_bufown2,
+BUILDERS = {'ACursor': _build_acursor, 'ABCursor': _build_abcursor, 'ABuffer': _build_abuffer, 'LCursor2': _build_lcursor2, 'BufCursor2': _build_bufcursor2, 'BufOwn2': _build_bufown2,
             'ghosts:tatsu/input/textlines.py:TextLinesCursor.lineinfo': _ghosts_lineinfo,
             'ghosts:tatsu/input/buffer.py:BufferCursor.lineinfo': lambda a: _ghosts_from_lines(a['self'].buffer.text.splitlines(True), a['self'].buffer.text),
             'ghosts:tatsu/input/buffer.py:Buffer.lineinfo': lambda a: _ghosts_from_lines(a['self'].text.splitlines(True), a['self'].text)}
